@@ -4,7 +4,7 @@ from typing import Optional, Sequence, List, Iterable, SupportsIndex, Union, Cal
 
 import numpy as np
 
-from ..hooks import HookHost, Hook
+from ..hooks import HookHost, Hook, root_hooks
 from ..profile import Profile as BaseProfile
 from timeit import default_timer as timer
 
@@ -153,6 +153,21 @@ class Unit(HookHost):
         self.in_profile = self.InProfile(self, in_profile)
         if not self.out_profile:
             self.out_profile = self.OutProfile(self, in_profile)
+        else:
+            # The out profile is re-used to keep the results of the previous solution (root hooks) as start values.
+            # Everything else is handed over from the current in profile as it is on creation.
+            roots = {h.name for h in root_hooks if isinstance(self.out_profile, h.owner)}
+            handed_over = {k: v for k, v in in_profile.__dict__.items() if not k.startswith("_")}
+            outdated = [
+                k
+                for k in self.out_profile.__dict__
+                if not k.startswith("_") and k not in roots and k not in handed_over
+            ]
+            for k in outdated:
+                delattr(self.out_profile, k)
+            for k, v in handed_over.items():
+                if k not in roots or k not in self.out_profile.__dict__:
+                    setattr(self.out_profile, k, v)
 
     def __init_subclass__(cls, **kwargs):
         cls.pre_processors = []
